@@ -270,10 +270,18 @@ func TestC09Reuse(t *testing.T) {
 		id := graphsync.NewRequestID()
 		var phase int32 // 0: first request (pause at block 1), 1: second request
 		var markerSeen int32
+		var smu sync.Mutex
+		var sightings []int64 // logical times at which a hook saw the old peer's marker
+		note := func() {
+			smu.Lock()
+			sightings = append(sightings, mon.Tick())
+			smu.Unlock()
+		}
 		pausedCh := make(chan struct{}, 1)
 		A.OnIncomingBlock = func(pp peer.ID, rs graphsync.ResponseData, b graphsync.BlockData, a graphsync.IncomingBlockHookActions) {
 			if _, ok := rs.Extension(thirdPartyMarker); ok {
 				atomic.StoreInt32(&markerSeen, 1)
+				note()
 			}
 			if atomic.LoadInt32(&phase) == 0 && b.Index() == 1 {
 				a.PauseRequest()
@@ -286,6 +294,7 @@ func TestC09Reuse(t *testing.T) {
 		A.OnResponse = func(pp peer.ID, rs graphsync.ResponseData, a graphsync.IncomingResponseHookActions) {
 			if _, ok := rs.Extension(thirdPartyMarker); ok {
 				atomic.StoreInt32(&markerSeen, 2)
+				note()
 				a.TerminateWithError(errors.New("verif: third-party response reached the response hook"))
 			}
 		}
@@ -359,7 +368,26 @@ func TestC09Reuse(t *testing.T) {
 			rep.Violation(ci, "C09/request-never-finished", "system quiescent but the re-issued request is still open", detail())
 		default:
 			if ms := atomic.LoadInt32(&markerSeen); ms != 0 {
-				rep.Violation(ci, "C09/hook-saw-third-party-response-data", "after the request id was re-used for another peer, a response from the old peer reached a requestor hook", detail())
+				// recorded finding: while no request with the id is in progress (after the first request was
+				// retired and before the second was issued, or after the second was retired) the requestor
+				// cannot tell whose response it is. While the second request is in progress it must.
+				rets := w.RetiredAll(id)
+				sig := "C09/third-party-response-after-request-finished"
+				smu.Lock()
+				for _, at := range sightings {
+					live := at > req2.Called
+					if len(rets) >= 2 && at > rets[len(rets)-1] {
+						live = false
+					}
+					if len(rets) < 2 && at > req2.Called {
+						live = true
+					}
+					if live {
+						sig = "C09/hook-saw-third-party-response-data"
+					}
+				}
+				smu.Unlock()
+				rep.Violation(ci, sig, "after the request id was re-used for another peer, a response from the old peer reached a requestor hook", detail())
 			}
 			// the second request starts with whatever the first one already stored
 			exp := MakeCase(ci, c.DAG, c.Sel, c.SelKind, map[cid.Cid]bool{}, all).Exp
